@@ -514,7 +514,10 @@ func changeStoreMapping(oldMapping, newMapping mapping.IndexMapping, oldStore, n
 			higherIntersectionBound := math.Min(outHigherBound, inHigherBound)
 			intersectionSize := higherIntersectionBound - lowerIntersectionBound
 			proportion := intersectionSize / inSize
-			newStore.AddWithCount(outIndex, proportion*count)
+			if proportion > 0 {
+				// Rounding can make the intersection with a bin that merely touches the range slightly negative.
+				newStore.AddWithCount(outIndex, proportion*count)
+			}
 		}
 		return false
 	})
